@@ -27,7 +27,7 @@ class Tracker:
         self.current_line = None
 
     def sleeping_now(self):
-        return frozenset(n for n, s in self.im.gw.sensors.items() if s.is_smart_sleep_node)
+        return frozenset(n for n, s in self.im.gw.sensors.items() if getattr(s, "is_smart_sleep_node", False))
 
     def before(self, op):
         self.processed = None
@@ -104,6 +104,9 @@ class C01Pump(Base):
     """C01: nothing raises in the pump; a rejected line has no effect at all; the pump still answers."""
     name = "c01"
 
+    def start(self, im):
+        self.notes = []
+
     def before(self, im, op, trk):
         from harness.impl.gwrun import render_state
         self.pre = [t for t in _no_jobs(render_state(im.gw))]
@@ -117,6 +120,11 @@ class C01Pump(Base):
         if trk.processed is not None:
             acc = accepted(trk.processed, im.cfg["ver"])
             self.stats["line:accepted" if acc else "line:rejected"] += 1
+            if acc is not None:
+                # for the independent judge (the extracted serial API spec, see props/c01.py): lines the
+                # implementation's own validator accepted and that had an effect
+                if (events or _no_jobs(render_state(im.gw)) != self.pre) and trk.processed not in self.notes:
+                    self.notes.append(trk.processed)
             if acc is None:
                 post = _no_jobs(render_state(im.gw))
                 if events:
